@@ -19,7 +19,8 @@ def p_rectgeo(e, arg):
     onelayer = len(arg) > 6 and arg[6] == 'onelayer'
     rot = arg[6] if len(arg) > 6 and isinstance(arg[6], int) else 0          # the original rotated clockwise by a multiple of 90 degrees
     singlex = len(arg) > 6 and arg[6] == 'singlex'       # a single block in the x direction: the recorded finding (match_position divides by zero)
-    tag = '[%dx%dx%d,atm%d,conv%d,%d surfaces%s]' % (tuple(arg[:6]) + (',onelayer' if onelayer else (',single x' if singlex else (',rotated %d' % rot if rot else '')),))
+    bc = arg[6] if len(arg) > 6 and arg[6] in BOUNDARY else None    # inactive boundary blocks attached to the generated grid the way a modeller does
+    tag = '[%dx%dx%d,atm%d,conv%d,%d surfaces%s]' % (tuple(arg[:6]) + (',onelayer' if onelayer else (',single x' if singlex else (',rotated %d' % rot if rot else (',boundary %s' % bc if bc else ''))),))
     def prog(e):
         geo, S = build_rect(e, nx, ny, nz, atm, 0, nsurf, origin=[e.sym_real('ox'), e.sym_real('oy'), e.sym_real('oz')])
         snap = z3.RealVal('1/10')
@@ -43,6 +44,9 @@ def p_rectgeo(e, arg):
         e.assume(geo.fields['atmosphere_volume'] >= 10 ** 25)      # atmosphere blocks are not active blocks (volume >= atmos_volume)
         tg = e.load_module('t2grids').globals
         grid = e.call(e.getattr(e.call(tg['t2grid'], []), 'fromgeo'), [geo])
+        own_blocks = [b.fields['name'] for b in grid.fields['blocklist']]
+        if bc:
+            attach_boundary(e, tg, geo, grid, bc)
         try:
             geo2, bm = e.call(e.getattr(grid, 'rectgeo'), [], {'atmos_type': atm, 'convention': convention})
         except PyExc as ex:
@@ -82,7 +86,8 @@ def p_rectgeo(e, arg):
             e.fail('post:regenerated_grid_reproduces_names_volumes_connections' + tag, 'fromgeo raises %s: %s' % (ex.cls, ex.msg)); return
         g1, g2 = grid.fields, grid2.fields
         bad = []
-        n1 = [b.fields['name'] for b in g1['blocklist']]; n2 = [b.fields['name'] for b in g2['blocklist']]
+        # the inactive boundary blocks are not part of the geometry: the grid generated from the geometry is compared
+        n1 = own_blocks; n2 = [b.fields['name'] for b in g2['blocklist']]
         if set(n1) != set(n2) or len(n1) != len(n2):
             bad.append('block names %r regenerated as %r' % (n1, n2))
         else:
@@ -93,7 +98,7 @@ def p_rectgeo(e, arg):
                     continue             # atmosphere volume is a parameter of rectgeo, not recovered from the grid
                 if not _valid(e, to_real(b1.fields['volume']) == to_real(b2.fields['volume'])):
                     bad.append('block %r volume %s regenerated as %s' % (nm, b1.fields['volume'], b2.fields['volume']))
-            k1 = dict((frozenset(b.fields['name'] for b in c.fields['block']), c) for c in g1['connectionlist'])
+            k1 = dict((frozenset(b.fields['name'] for b in c.fields['block']), c) for c in g1['connectionlist'] if all(b.fields['name'] in own_blocks for b in c.fields['block']))
             k2 = dict((frozenset(b.fields['name'] for b in c.fields['block']), c) for c in g2['connectionlist'])
             if set(k1) != set(k2):
                 bad.append('connections %r regenerated as %r' % (sorted(tuple(sorted(k)) for k in k1), sorted(tuple(sorted(k)) for k in k2)))
@@ -113,12 +118,44 @@ def p_rectgeo(e, arg):
     e.explore(prog, 'rectgeo')
 
 
+BOUNDARY = ('top-zero', 'top-huge', 'bottom-huge')
+
+
+def attach_boundary(e, tg, geo, grid, bc):
+    """Inactive boundary blocks (zero or huge volume, no centre) added to the generated grid through the real add_block /
+    add_connection: one block on top of every column (atmosphere type 2 geometries) or one shared block under the bottom layer."""
+    vol = 0. if bc.endswith('zero') else 1.e50
+    rock = grid.fields['rocktypelist'][0]
+    cols = geo.fields['columnlist']
+    def newblock(k):
+        b = e.call(tg['t2block'], ['Z%s%2d' % ('ABCDEFGHIJ'[(k // 99) % 10], k % 99 + 1), vol, rock])
+        e.call(e.getattr(grid, 'add_block'), [b])
+        return b
+    if bc.startswith('top'):
+        for k, col in enumerate(cols):
+            lay = e.call(e.getattr(geo, 'column_surface_layer'), [col])
+            blk = grid.fields['block'][e.call(e.getattr(geo, 'block_name'), [lay.fields['name'], col.fields['name']])]
+            d = to_real(e.getattr(col, 'surface')) - to_real(blk.fields['centre'].items[2])
+            con = e.call(tg['t2connection'], [[blk, newblock(k)], 3, [d, z3.RealVal('1/1000000')], col.fields['area'], -1.])
+            e.call(e.getattr(grid, 'add_connection'), [con])
+    else:
+        b = newblock(0)
+        lay = geo.fields['layerlist'][-1]
+        for col in cols:
+            blk = grid.fields['block'][e.call(e.getattr(geo, 'block_name'), [lay.fields['name'], col.fields['name']])]
+            half = (to_real(lay.fields['top']) - to_real(lay.fields['bottom'])) / 2
+            con = e.call(tg['t2connection'], [[b, blk], 3, [z3.RealVal('1/1000000'), half], col.fields['area'], 1.])
+            e.call(e.getattr(grid, 'add_connection'), [con])
+
+
 RECTS = [(2, 1, 2, 2, 0, 0), (2, 1, 2, 0, 0, 0), (2, 2, 2, 1, 0, 0), (2, 1, 3, 0, 0, 1), (3, 2, 2, 2, 1, 0), (2, 2, 3, 1, 2, 1), (2, 1, 3, 2, 3, 1), (2, 2, 2, 0, 0, 1),
-         (2, 1, 2, 2, 3, 1, 'onelayer'), (1, 2, 2, 2, 0, 0, 'singlex'), (2, 2, 2, 2, 0, 0, 90), (2, 2, 2, 0, 0, 1, 180), (3, 2, 2, 1, 1, 0, 270)]
+         (2, 1, 2, 2, 3, 1, 'onelayer'), (1, 2, 2, 2, 0, 0, 'singlex'), (2, 2, 2, 2, 0, 0, 90), (2, 2, 2, 0, 0, 1, 180), (3, 2, 2, 1, 1, 0, 270),
+         (2, 2, 2, 2, 0, 1, 'top-zero'), (2, 1, 3, 2, 0, 1, 'top-huge'), (2, 2, 2, 0, 0, 1, 'bottom-huge')]
 PROGRAMS = [('p_rectgeo', r) for r in RECTS]
 
 
-RECTS_THOROUGH = [(3, 3, 3, 0, 0, 2), (4, 2, 2, 1, 1, 1), (2, 3, 4, 2, 2, 2), (3, 1, 4, 0, 3, 2), (3, 1, 3, 1, 0, 1), (3, 3, 2, 2, 0, 0), (4, 1, 3, 0, 0, 2)]
+RECTS_THOROUGH = [(3, 3, 3, 0, 0, 2), (4, 2, 2, 1, 1, 1), (2, 3, 4, 2, 2, 2), (3, 1, 4, 0, 3, 2), (3, 1, 3, 1, 0, 1), (3, 3, 2, 2, 0, 0), (4, 1, 3, 0, 0, 2),
+                  (3, 2, 3, 2, 1, 2, 'top-zero'), (2, 2, 3, 1, 0, 1, 'bottom-huge'), (2, 3, 2, 2, 2, 1, 'top-huge')]
 
 
 def programs(tier):
